@@ -2119,14 +2119,16 @@ class FileSet:
         """
         if max_interval is not None:
             max_interval = to_timedelta(max_interval, numbers_as="seconds")
-            # Widen the period but stay inside the range of datetime (start
-            # and end default to datetime.min and datetime.max):
+            # Widen the period but stay inside the range of datetime (an open
+            # start or end means datetime.min or datetime.max):
+            start = datetime.min if start is None else to_datetime(start)
+            end = datetime.max if end is None else to_datetime(end)
             try:
-                start = to_datetime(start) - max_interval
+                start = start - max_interval
             except OverflowError:
                 start = datetime.min
             try:
-                end = to_datetime(end) + max_interval
+                end = end + max_interval
             except OverflowError:
                 end = datetime.max
 
